@@ -290,6 +290,21 @@ Theorem c01_client_frames : forall ops c,
 Proof. exact client_frames_lemma. Qed.
 Print Assumptions c01_client_frames.
 
+(* The sink side below the universe (real Client::SendDMX / SendDMXCallback, several universes per
+   client): the arrival - or not - of UpdateDmxData acks changes nothing, so what a later change hands
+   to a sink can not depend on earlier frames being un-acked (c01_fanout holds in every world); and two
+   universes sharing their clients do not see each other: a call on one leaves the other world as it
+   is and makes exactly the calls the single-universe step makes. *)
+Theorem c01_sinks_stateless : forall w1 w2 o c n,
+  step w1 (AckClient c n) = (w1, []) /\
+  step2 (w1, w2) (On1 o) = ((fst (step w1 o), w2), snd (step w1 o)) /\
+  step2 (w1, w2) (On2 o) = ((w1, fst (step w2 o)), snd (step w2 o)).
+Proof.
+  intros w1 w2 o c n. split; [reflexivity|]. unfold step2. cbn [fst snd].
+  destruct (step w1 o), (step w2 o). split; reflexivity.
+Qed.
+Print Assumptions c01_sinks_stateless.
+
 (* No wrap-around of liveness, at any magnitude of time (time values are unbounded naturals here; there
    is no 2^31 / 2^32 us, ms or s beyond which an old frame comes back): a stored frame that is not live
    at some clock reading is not live at any later reading either, and is in no later group - a source
@@ -443,4 +458,17 @@ Example ex_long_silence :
   let w := run [AddInput 0; AddOutput 5; SetMode false; ClientData 4 [0; 9] 100 1000 1000] in
   snd (step w (PortData 0 [7] 2147483649000 2147483649000)) = [WriteDMX 5 [7] 100] /\
   snd (step w (PortData 0 [7] 2000 2000)) = [WriteDMX 5 [7; 9] 100].
+Proof. vm_compute. repeat split; reflexivity. Qed.
+
+(* un-acked frames and a second universe sharing the sink: every change still reaches the sink *)
+Example ex_two_universes :
+  let ww0 := (run [AddInput 0; AddSink 3], run [AddInput 1; AddSink 3]) in
+  let (ww1, e1) := step2 ww0 (On1 (PortData 0 [1] 10 10)) in
+  let (ww2, e2) := step2 ww1 (On2 (PortData 1 [2] 10 10)) in
+  let (ww3, e3) := step2 ww2 (On1 (PortData 0 [3] 11 11)) in
+  let (ww4, e4) := step2 ww3 (On1 (AckClient 3 1)) in
+  let (ww5, e5) := step2 ww4 (On2 (PortData 1 [4] 12 12)) in
+  (e1, e2, e3, e4, e5) =
+    ([SendDMX 3 [1] 100], [SendDMX 3 [2] 100], [SendDMX 3 [3] 100], [], [SendDMX 3 [4] 100]) /\
+  u_buf (w_u (fst ww5)) = [3] /\ u_buf (w_u (snd ww5)) = [4].
 Proof. vm_compute. repeat split; reflexivity. Qed.
